@@ -141,14 +141,26 @@ pub fn guarded<R>(f: impl FnOnce() -> R) -> Result<R, String> {
     }
 }
 
+pub static LAST_PANIC_LOC: std::sync::Mutex<String> = std::sync::Mutex::new(String::new());
+pub static PANIC_STDERR: std::sync::atomic::AtomicBool = std::sync::atomic::AtomicBool::new(true);
+
 pub fn quiet_panics() {
     // caught panics of the code under test are data (logged as events); keep a short line on stderr for diagnosis
     std::panic::set_hook(Box::new(|info| {
         let loc = info.location().map(|l| format!("{}:{}", l.file(), l.line())).unwrap_or_default();
-        eprintln!("[panic] {}", loc);
+        if PANIC_STDERR.load(std::sync::atomic::Ordering::Relaxed) {
+            eprintln!("[panic] {}", loc);
+        }
+        if let Ok(mut g) = LAST_PANIC_LOC.lock() {
+            *g = loc;
+        }
     }));
 }
 
+/// location (file:line) of the most recent caught panic
+pub fn last_panic_loc() -> String {
+    LAST_PANIC_LOC.lock().map(|g| g.clone()).unwrap_or_default()
+}
 
 /// Optional stderr logger for smoltcp's own net_debug!/net_trace! output (enabled with VH_LOG=1); diagnosis only.
 pub struct StderrLog;
